@@ -407,8 +407,8 @@ __CPROVER_ensures(XC_DEAD_MONO && XC_ACC_SAME)
 /* PO[C02] bytestream_bsend.stream_grows_by_a_prefix: whatever is reported, what the transport accepted in this call is buf[0..n) for some n <= len, in order */
 __CPROVER_ensures(xv_tx_off >= __CPROVER_old(xv_tx_off) && xv_tx_off - __CPROVER_old(xv_tx_off) <= (long)len && \
                   XC_TX_GREW(buf, xv_tx_off - __CPROVER_old(xv_tx_off)))
-/* PO[C02] bytestream_bsend.reports_what_was_accepted: rv >= 0 => exactly buf[0..rv) was accepted -- and a blocking send takes everything */
-__CPROVER_ensures(__CPROVER_return_value >= 0 ==> (xv_tx_off == __CPROVER_old(xv_tx_off) + __CPROVER_return_value && (size_t)__CPROVER_return_value == len && !xv_poll_failed))
+/* PO[C02] bytestream_bsend.reports_what_was_accepted: rv >= 0 => exactly buf[0..rv) was accepted -- and a blocking send takes everything (at most INT_MAX bytes per call) */
+__CPROVER_ensures(__CPROVER_return_value >= 0 ==> (xv_tx_off == __CPROVER_old(xv_tx_off) + __CPROVER_return_value && (size_t)__CPROVER_return_value == (len > 2147483647UL ? 2147483647UL : len) && !xv_poll_failed))
 /* PO[C02] bytestream_bsend.failure_accepted_nothing: rv == -1 => no byte of this call's buffer was accepted */
 __CPROVER_ensures(__CPROVER_return_value == -1 ==> (xv_errno > 0 && XC_TX_SAME))
 ;
@@ -536,12 +536,16 @@ __CPROVER_assigns(xv_errno)
 __CPROVER_ensures(1)
 ;
 
-/* ---- set_attrs: see part 3 for the C11 obligations.  When REPLACED (socket creation jobs) the mode the socket is left in
- * is tied to the prophecy constant xv_mode_after_attrs: whatever set_attrs does, some value of the constant matches it, and
- * the jobs are proved for both -- so the clause assumes nothing */
+/* ---- set_attrs.  ENFORCED (job xcmcore.set_attrs, -DXC_ENFORCE_SET_ATTRS): the C11 obligations below, over the contract of
+ * xcm_attr_set and the abstract-map stub of xcm_attr_map_foreach.  REPLACED (socket creation jobs): frame and result only, plus
+ * (a) the call record xv_attrs_sock/xv_attrs_rv, which only a contract can write, and (b) the mode the socket is left in, tied to
+ * the prophecy constant xv_mode_after_attrs: whatever set_attrs does, some value of the constant matches it, and the creation
+ * jobs are proved for every value -- so that clause assumes nothing.  What IS assumed of set_attrs in those jobs: it sleeps only
+ * if an attribute asks for blocking mode (xv_attrs_req_block; xcm.blocking -> set_blocking_attr -> xcm_set_blocking lives in
+ * xcm_tp.c and attr_tree.c, outside this unit). */
 #define XC_SET_FRAME xv_errno, xv_set_calls, xv_set_failed, xv_set_name, xv_set_type, xv_set_value, xv_set_len, xv_set_sock, xv_set_rv, xv_set_first_name, \
-                     xv_at_name, xv_at_type, xv_at_value, xv_at_len, xv_at_sock, xv_map_name, xv_map_type, xv_map_value, xv_map_len, \
-                     xv_conn_dead, xv_updated, xv_upd_cond, xv_upd_sock
+                     xv_at_name, xv_at_type, xv_at_value, xv_at_len, xv_at_sock, xv_conn_dead, xv_updated, xv_upd_cond, xv_upd_sock
+#define XC_MAP_FRAME xv_map_name, xv_map_type, xv_map_value, xv_map_len     /* written by the xcm_attr_map_foreach stub only */
 #define XC_NDEF ((attrs == NULL || !xv_map_has_service) ? 1 : 0)        /* number of default writes: xcm.service unless the map has it */
 #define XC_PARENT_BS (parent_s != NULL && xv_bytestream)
 static int set_attrs(struct xcm_socket *s, struct xcm_socket *parent_s, const struct xcm_attr_map *attrs)
@@ -549,7 +553,7 @@ __CPROVER_requires(__CPROVER_is_fresh(s, sizeof(struct xcm_socket)) && XC_CNT_OK
 #ifdef XC_ENFORCE_SET_ATTRS
 __CPROVER_requires(xv_set_calls == 0 && !xv_set_failed && xv_map_n >= 0 && xv_map_n < XC_CNT_MAX && (parent_s == NULL || parent_s == xv_sock))
 #endif
-__CPROVER_assigns(XC_SET_FRAME, xv_attrs_sock, xv_attrs_rv, s->is_blocking, s->condition)
+__CPROVER_assigns(XC_SET_FRAME, XC_MAP_FRAME, xv_attrs_sock, xv_attrs_rv, s->is_blocking, s->condition)
 XC_MAY_BLOCK(xv_attrs_req_block)
 __CPROVER_ensures(XC_RV_OR_ERRNO && XC_DEAD_MONO)
 #ifdef XC_ENFORCE_SET_ATTRS
@@ -572,7 +576,7 @@ __CPROVER_ensures(__CPROVER_return_value == 0 ==> s->is_blocking == xv_mode_afte
 
 /* ---- socket creation.  A connect is "non-blocking" when its attributes leave the new socket non-blocking
  * (xcm.blocking = false, or the XCM_NONBLOCK flag of xcm_connect, which is that attribute) */
-#define XC_LIFE_FRAME xv_attrs_sock, xv_attrs_rv, xv_created_sock, xv_inited_sock, xv_connected_sock, xv_accepted_sock, xv_closed_sock, xv_destroyed_sock, xv_destroyed_xpoll, version_logged
+#define XC_LIFE_FRAME XC_MAP_FRAME, xv_attrs_sock, xv_attrs_rv, xv_created_sock, xv_inited_sock, xv_connected_sock, xv_accepted_sock, xv_closed_sock, xv_destroyed_sock, xv_destroyed_xpoll, version_logged
 #if defined(XC_NB)
 #define XC_CONNECT_MODE (!xv_mode_after_attrs && !xv_attrs_req_block)
 #elif defined(XC_BL)
@@ -713,7 +717,7 @@ __CPROVER_ensures((__CPROVER_return_value == -1 && xv_errno == xv_get_errno && x
                   (__CPROVER_return_value >= 0 && (size_t)__CPROVER_return_value <= capacity && xv_get_type == (int)*type))
 ;
 #define XC_TYPED_POST(required_type) ( \
-    (xv_get_rv == -1 ==> (__CPROVER_return_value == -1 && xv_errno == (xv_get_errno == EOVERFLOW ? ENOENT : xv_get_errno))) && \
+    (xv_get_rv == -1 ==> (__CPROVER_return_value == -1 && xv_errno == ((xv_get_errno == EOVERFLOW && (int)(required_type) != xcm_attr_type_str && (int)(required_type) != xcm_attr_type_bin) ? ENOENT : xv_get_errno))) && \
     ((xv_get_rv >= 0 && xv_get_type != (int)(required_type)) ==> (__CPROVER_return_value == -1 && xv_errno == ENOENT)) && \
     ((xv_get_rv >= 0 && xv_get_type == (int)(required_type)) ==> __CPROVER_return_value == xv_get_rv))
 static int attr_get_with_type(struct xcm_socket *s, const char *name, enum xcm_attr_type required_type, void *value, size_t capacity)
